@@ -291,7 +291,17 @@ func runC24(c *Ctx) {
 				if i < nB {
 					u := units[i]
 					t0 := time.Now()
-					res := lev.RunB(*u.b)
+					// a part-B run takes about half a minute; one that has not returned after 15 minutes
+					// is a store call that does not return (the goroutine cannot be stopped and is left behind)
+					done := make(chan *lev.Result, 1)
+					go func() { done <- lev.RunB(*u.b) }()
+					var res *lev.Result
+					select {
+					case res = <-done:
+					case <-time.After(15 * time.Minute):
+						d := lev.Diff{Sig: "store-call-does-not-return|part-B", Detail: "run " + u.b.String() + " of part B (65534..65540 distinct validator keys) did not return within 15 minutes; it takes about 30 s"}
+						res = &lev.Result{Diffs: []lev.Diff{d}, Counts: map[string]int{d.Sig: 1}}
+					}
 					resB[i] = res
 					wallB[i] = time.Since(t0).Seconds()
 					atomic.StoreInt64(&lastB, time.Now().UnixNano())
